@@ -1,5 +1,6 @@
 import OV.Model.C03Pass
 import OV.Model.C03Frag
+import OV.Model.C03Dce
 import OV.Drivers.Loop
 /-! Line-protocol driver for C03/C04.
 
@@ -14,6 +15,11 @@ import OV.Drivers.Loop
 Answer: `OK mod=<0|1> err=<-|msg> prune=<0|1> NEED <k> key* HIST <k> h* <graph>` (`prune`: nothing popped by
 `_clear_unused_initializers` is still referenced in the result).  The first `HIST` token is `thm:fragmentA` when the case
 satisfies every mechanically checkable hypothesis of `fold_fragmentA_preserves` (`inTheoremFragment`, OV/Model/C03Frag.lean).
+
+`C03 dce OPS=<0|1> SCH <k> (op flags)* <graph>` — `RemoveUnusedNodesPass` (OV/Model/C03Dce.lean); `OPS`: the main graph has an
+opset import for the default domain; `flags := ? | - | f,f,…` (`?`: get_schema raised; 0 Single, 1 Optional, 2 Variadic).
+Answer: `OK mod=<0|1> cnt=<n> HIST <k> h* <graph>`; the first `HIST` token is `thm:dce` when the case satisfies `dceFragB`
+(the structural hypothesis of `dce_refines`).
 -/
 namespace OV.Drivers.C03
 open OV.C03
@@ -237,6 +243,13 @@ def occursIn : Nat → Graph → Name → Bool
 def pruneOk (st : St) (g0 g' : Graph) : Bool :=
   st.removed.all fun x => !g0.inputs.contains x && !occursIn 16 g' x
 
+def pSchema : P (String × Option (List Nat)) := fun ts =>
+  match ts with
+  | op :: fl :: r =>
+    if fl == "?" then some ((op, none), r)
+    else (parseIntsList fl).map fun l => ((op, some (l.map Int.toNat)), r)
+  | _ => none
+
 def handle (args : List String) : String :=
   match args with
   | "fold" :: ts =>
@@ -251,6 +264,17 @@ def handle (args : List String) : String :=
          "NEED", toString st.need.length] ++ st.need.reverse ++
         (let hist := (if inTheoremFragment c.ctx.isFunction c.info c.g then ["thm:fragmentA"] else []) ++ st.hist.reverse
          ["HIST", toString hist.length] ++ hist) ++ showGraph 64 g')
+  | "dce" :: ops :: "SCH" :: ts =>
+    match pCounted pSchema ts with
+    | some (sch, ts) =>
+      match pGraph (ts.length + 1) ts with
+      | some (g, []) =>
+        let (o, g') := dcePass { schema := sch } (ops == "OPS=1") g
+        let hist := (if dceFragB g then ["thm:dce"] else []) ++ o.hist.reverse
+        " ".intercalate (["OK", "mod=" ++ (if o.count != 0 then "1" else "0"), "cnt=" ++ toString o.count,
+          "HIST", toString hist.length] ++ hist ++ showGraph 64 g')
+      | _ => "bad-case"
+    | none => "bad-case"
   | _ => "bad-op"
 
 end OV.Drivers.C03
